@@ -62,6 +62,8 @@ WHAT = {
                                             "parameters: a parameter is declared before the parameter it inquires about",
     "gen_decls/arg-before-type/type": "a dummy argument of a derived type defined in the same routine is declared before the type "
                                  "(arguments are section 3, derived types section 4)",
+    "gen_decls/interface-before-type/import": "an (abstract) interface block whose body imports a derived type of the same scope is "
+                                              "written (section 1) before the type definition (section 4)",
     "gen_decls/const-before-type/type": "a parameter of a derived type defined in the same scope is declared before the type",
     "reader/derived-type-bound-becomes-component": "reading 'type t; real :: c(n); end type' with n a parameter of the same scope "
                                                    "adds a bogus component 'integer :: n' to the type (derived types are processed "
@@ -95,7 +97,9 @@ def line_cat(lines, idx):
             break
         k -= 1
     attrs = ln.split("::")[0].lower()
-    if re.match(r"\s*type\s*(,\s*(public|private)\s*)?::", ln, re.I) or re.match(r"\s*type\s+\w+\s*$", ln, re.I):
+    if ln.strip().lower().startswith("import"):
+        return "interface"
+    if re.match(r"\s*type\s*(,[^:()]*)?::", ln, re.I) or re.match(r"\s*type\s+\w+\s*$", ln, re.I):
         return "type"
     if "parameter" in attrs:
         return "const"
@@ -107,6 +111,8 @@ def line_cat(lines, idx):
 def text_relation(line, name):
     """How a declaration line uses a name: inquiry / bound / type / kind / literal-kind / value."""
     n = re.escape(name)
+    if line.strip().lower().startswith("import"):
+        return "import"
     if re.search(r"\b(kind|size|lbound|ubound|shape|bit_size|len|huge|tiny|epsilon|precision|range|digits)\s*\(\s*%s\b" % n, line, re.I):
         return "inquiry"
     if re.search(r"\btype\s*\(\s*%s\s*\)" % n, line, re.I):
@@ -139,12 +145,25 @@ def classify_compile(text, errs, origin):
             decl = None
             for k in range(a, b + 1):
                 low = lines[k].strip().lower()
-                if low.startswith(("public", "private", "use ")):
+                if low.startswith(("public", "private", "use ", "import")):
                     continue
                 if re.search(r"::\s*%s\b" % re.escape(name), lines[k], re.I) or \
-                        re.match(r"\s*type\s*(,\s*(public|private)\s*)?::\s*%s\b" % re.escape(name), lines[k], re.I):
+                        re.match(r"\s*type\s*(,[^:()]*)?::\s*%s\b" % re.escape(name), lines[k], re.I):
                     decl = k
                     break
+            wide = False
+            if decl is None and tok.search(lines[i]):
+                # e.g. an interface body: the entity may be declared later in the enclosing unit
+                for k in range(i + 1, len(lines)):
+                    if re.match(r"\s*(contains\b|end\s+module)", lines[k], re.I):
+                        break
+                    if re.search(r"::\s*%s\b" % re.escape(name), lines[k], re.I) and \
+                            not lines[k].strip().lower().startswith(("public", "private", "import")):
+                        decl, wide = k, True
+                        break
+            if decl is not None and wide:
+                keys.append("gen_decls/%s-before-%s/%s" % (line_cat(lines, i), line_cat(lines, decl), text_relation(lines[i], name)))
+                continue
             if decl is not None:
                 user = None
                 for k in range(a + 1, decl):
@@ -268,7 +287,7 @@ def run(ctx):
 
     # ------------------------------------------------------------------ spec + tables streams
     units, meta, cases = [], [], []
-    nt = ctx.pick(100, 2500)
+    nt = ctx.pick(100, 2000)
     def ent(name, cat, **kw):
         e = dict(name=name, cat=cat, deps=[], kind=None, litkind=None, shape=[], inq=[], typ=None)
         e.update(kw)
@@ -330,10 +349,10 @@ def run(ctx):
             ctx.count(("table", unit), True)
             if not acc:
                 off = first_offence(by, names, None)
-                key = classify_compile(unit, [(None, m) for m in errs], "gen_decls")
+                key = classify_compile(unit, errs, "gen_decls")
                 if off:
                     key = "gen_decls/%s-before-%s/%s" % (by[off[0]]["cat"], by[off[1]]["cat"], off[2])
-                report(key, "gen_decls output rejected by gfortran: " + errs[0],
+                report(key, "gen_decls output rejected by gfortran: " + errs[0][1],
                        {"stream": "tables", "spec": spec, "written": unit, "gfortran": errs[:3],
                         "first_use_before_declaration(user, used, how)": off,
                         "replay": "build the table with props/C03/gen.py build_table(spec, compilable=True); FortranWriter().gen_decls(table); gfortran -fimplicit-none -fsyntax-only"})
@@ -341,8 +360,8 @@ def run(ctx):
     ctx.log("spec/tables streams: %d units compiled, failing=%d" % (len(units), fails))
 
     # ------------------------------------------------------------------ nested scopes (merge_no_capture)
-    nested_cases, nested_info = [], []
-    for i in range(ctx.pick(25, 500)):
+    nested_cases, nested_info, nunits, nmeta = [], [], [], []
+    for i in range(ctx.pick(25, 400)):
         cont, rout = gen.gen_nested(rng)
         enc = gen.nested_case(cont, rout)
         try:
@@ -356,17 +375,19 @@ def run(ctx):
             w, names, obs = None, None, "None"
         nested_cases.append("CW (%s, %s)" % (enc, obs))
         nested_info.append({"written": w, "declared": names})
-        if w is None:
-            continue
-        okn, en = progs.gfortran(ctx.scratch, "nested", w)
+        if w is not None:
+            nunits.append(re.sub(r"\bmodule gm\b", "module gm%d" % i, w))
+            nmeta.append(names)
+    nres, _ = progs.compile_units(ctx.scratch, "nested", "", nunits)
+    for w, names, errs in zip(nunits, nmeta, nres):
         renamed = any("_" in n and n.rsplit("_", 1)[1].isdigit() for n in names)
-        ctx.hist("nested", "compiles" if okn else "rejected")
+        ctx.hist("nested", "compiles" if not errs else "rejected")
         ctx.count(("nested", w), renamed)
-        if not okn:
-            key = classify_compile(w, en, "scope-merge")
+        if errs:
+            key = classify_compile(w, errs, "scope-merge")
             if is_decl_key(key):
-                report(key, "routine with merged inner scopes does not compile: " + en[0][1],
-                       {"stream": "nested", "written": w, "gfortran": en[:3]})
+                report(key, "routine with merged inner scopes does not compile: " + errs[0][1],
+                       {"stream": "nested", "written": w, "gfortran": errs[:3]})
             else:
                 ctx.hist("compile_errors_not_about_declarations", "nested|" + key)
     ctx.log("nested scopes done, failing=%d" % fails)
@@ -387,7 +408,8 @@ def run(ctx):
             report(key, "re-written file does not compile: " + e1[0][1], {"stream": "corpus", "file": str(f), "written": w1, "gfortran": e1[:3]})
 
     # ------------------------------------------------------------------ transformed programs
-    npg = ctx.pick(14, 400)
+    npg = ctx.pick(14, 250)
+    punits, pmeta, originals = [], [], []
     for i in range(npg):
         src, _mod = progs.gen_program(rng, i)
         try:
@@ -395,27 +417,33 @@ def run(ctx):
         except Exception as e:      # pylint: disable=broad-except
             ctx.hist("progs", "reader:" + type(e).__name__)
             continue
-        if i < 3 or ctx.thorough and i % 25 == 0:
-            ok0, e0 = progs.gfortran(ctx.scratch, "p%d_orig" % i, src)
-            if not ok0:
-                ctx.violation({"property": "C04", "what": "harness: generated program does not compile", "src": src, "gfortran": e0[:3]}, no_input=True)
-                continue
+        if i < 3 or i % 25 == 0:
+            originals.append(src.replace("gp%d" % i, "go%d" % i))
         acc = progs.apply_history(rng, tree, lambda a, b: ctx.hist("trans_" + a, b))
         try:
             w = rt.write(tree)
         except Exception as e:      # pylint: disable=broad-except
             ctx.hist("progs", "writer:" + type(e).__name__ + ":" + str(e)[:40])
             continue
-        okw, ew = progs.gfortran(ctx.scratch, "p%d" % i, w)
+        punits.append(w)
+        pmeta.append((src, acc))
         ctx.count(("prog", w), bool(acc))
         ctx.hist("history_len", len(acc))
         if i == 0:
             ctx.sample({"history": acc, "written": w})
-        if not okw:
-            key = classify_compile(w, ew, "after-" + (acc[-1] if acc else "read"))
+    ores, _ = progs.compile_units(ctx.scratch, "progs_orig", "", originals)
+    for src, errs in zip(originals, ores):
+        if errs:
+            ctx.violation({"property": "C04", "what": "harness: generated program does not compile", "src": src,
+                           "gfortran": errs[:3]}, no_input=True)
+    pres, _ = progs.compile_units(ctx.scratch, "progs", "", punits)
+    for w, (src, acc), errs in zip(punits, pmeta, pres):
+        ctx.hist("prog_written", "compiles" if not errs else "rejected")
+        if errs:
+            key = classify_compile(w, errs, "after-" + (acc[-1] if acc else "read"))
             if is_decl_key(key):
-                report(key, "transformed program does not compile: " + ew[0][1],
-                       {"stream": "progs", "source": src, "history": acc, "written": w, "gfortran": ew[:3]})
+                report(key, "transformed program does not compile: " + errs[0][1],
+                       {"stream": "progs", "source": src, "history": acc, "written": w, "gfortran": errs[:3]})
             else:
                 ctx.hist("compile_errors_not_about_declarations", "%s|%s" % ("+".join(acc), key))
     ctx.log("programs done, failing=%d" % fails)
@@ -427,8 +455,13 @@ def run(ctx):
         inc = []
         if ctx.thorough:
             infra = build_infra(ctx)
+            avail = set()
             if infra:
                 inc = infra[1]
+                avail = {m.stem.lower() for d in inc for m in Path(d).glob("*.mod")}
+            files = [f for f in files if standalone_candidate(f, avail)]
+            ctx.notes["files_candidates"] = len(files)
+            files = ctx.rng("files").sample(files, min(160, len(files)))
         else:
             files = [f for f in files if standalone_candidate(f)]
             files = ctx.rng("files").sample(files, min(10, len(files)))
@@ -438,7 +471,7 @@ def run(ctx):
                 src = Path(f).read_text(errors="replace")
             except OSError:
                 continue
-            if len(src) > 200000:
+            if len(src) > 60000:
                 continue
             ok0, _ = progs.gfortran(ctx.scratch, "f_orig", src, incdirs=inc)
             ctx.hist("file_original", "compiles" if ok0 else "needs-other-modules-or-implicit-typing")
@@ -497,15 +530,16 @@ def run(ctx):
 INTRINSIC_MODULES = {"iso_c_binding", "iso_fortran_env", "omp_lib", "openacc", "ieee_arithmetic"}
 
 
-def standalone_candidate(path):
-    """Cheap text filter: every module the file uses is defined in the file itself (or intrinsic)."""
+def standalone_candidate(path, available=()):
+    """Cheap text filter: every module the file uses is defined in the file itself, intrinsic, or
+    among the available pre-built modules."""
     try:
         s = Path(path).read_text(errors="replace").lower()
     except OSError:
         return False
     used = set(re.findall(r"^\s*use\s*(?:,\s*intrinsic\s*)?(?:::)?\s*(\w+)", s, re.M))
     defined = set(re.findall(r"^\s*module\s+(\w+)", s, re.M)) - {"procedure"}
-    return not (used - defined - INTRINSIC_MODULES)
+    return not (used - defined - INTRINSIC_MODULES - set(available))
 
 
 def build_infra(ctx):
